@@ -499,7 +499,10 @@ class ndarray:
             return ndarray.from_elem(
                 lambda idx: e(_unflatten_f(_flatten_f(idx, shape), old_shape)), shape, self.dtype
             )
-        # trailing/leading unit axes keep a view (used for x.reshape(x.shape + (1,)))
+        # inserting / dropping unit axes (x.reshape(x.shape + (1,))): indices map one to one
+        plan = _unit_axes_plan(old_shape, shape)
+        if plan is not None and order == "C":
+            return ndarray.from_elem(lambda idx: e(tuple((idx[k] if k is not None else 0) for k in plan)), shape, self.dtype)
         return ndarray.from_elem(
             lambda idx: e(_unflatten(_flatten(idx, shape), old_shape)), shape, self.dtype
         )
@@ -659,8 +662,10 @@ class ndarray:
                 raise Undecided("boolean mask of different rank")
             count, sel = _rowmap(key)
             e = self.snapshot()
-            return ndarray.from_elem(lambda idx: e((sel(idx[0]),) + tuple(idx[1:])),
-                                     (count,) + self._shape[1:], self.dtype)
+            r = ndarray.from_elem(lambda idx: e((sel(idx[0]),) + tuple(idx[1:])),
+                                  (count,) + self._shape[1:], self.dtype)
+            r.nonneg = getattr(self, "nonneg", False)
+            return r
         if kd.symbolic:
             raise Undecided("index array of symbolic dtype")
         if kd.is_float():
@@ -670,12 +675,17 @@ class ndarray:
         n = self._shape[0]
         kn = key.ndim
 
+        key_nonneg = getattr(key, "nonneg", False)
+
         def el(idx):
             j = ke(tuple(idx[:kn]))
-            j = _wrap_neg(j, n)
+            if not key_nonneg:
+                j = _wrap_neg(j, n)
             return e((j,) + tuple(idx[kn:]))
 
-        return ndarray.from_elem(el, key._shape + self._shape[1:], self.dtype)
+        r = ndarray.from_elem(el, key._shape + self._shape[1:], self.dtype)
+        r.nonneg = getattr(self, "nonneg", False)
+        return r
 
     def __setitem__(self, key, value):
         if _py_isinstance(key, ndarray) and key.ndim > 0:
@@ -832,6 +842,40 @@ def _bounds(k, n):
         raise IndexError("index out of bounds for axis")
 
 
+def _same_extent(a, b):
+    if _py_isinstance(a, int) and _py_isinstance(b, int):
+        return a == b
+    if _py_isinstance(a, int) or _py_isinstance(b, int):
+        return False
+    return SV.lift(a).t.eq(SV.lift(b).t)
+
+
+def _unit_axes_plan(old, new):
+    """if `new` is `old` with axes of extent 1 inserted or dropped: for every old axis the new axis that
+    indexes it (None for a dropped unit axis), else None"""
+    is1 = lambda d: _py_isinstance(d, int) and d == 1  # noqa: E731
+    plan, k = [], 0
+    for d in old:
+        if is1(d):
+            if k < _py_len(new) and is1(new[k]):
+                plan.append(k)
+                k += 1
+            else:
+                plan.append(None)
+            continue
+        while k < _py_len(new) and is1(new[k]):
+            k += 1
+        if k >= _py_len(new) or not _same_extent(d, new[k]):
+            return None
+        plan.append(k)
+        k += 1
+    while k < _py_len(new):
+        if not is1(new[k]):
+            return None
+        k += 1
+    return plan
+
+
 def _wrap_neg(j, n):
     cj = concrete(j)
     if _py_isinstance(cj, int):
@@ -897,6 +941,17 @@ def _trunc(v):
 
 _rowmap_cache = {}
 _SELFN = {}
+ROWMAP_LOG = []  # ghost: (mask, count, sel) of every boolean-mask selection, in call order (cleared by the contract)
+
+
+def _rank_concrete(picks, m):
+    cm = concrete(m)
+    if _py_isinstance(cm, int):
+        return picks.index(cm) if cm in picks else -1
+    r = SV.lift(-1)
+    for k, pk in enumerate(picks):
+        r = core.ite(SV.lift(m) == pk, k, r)
+    return r
 
 
 def _rowmap(mask):
@@ -917,18 +972,22 @@ def _rowmap(mask):
         if builtins.all(_py_isinstance(v, bool) for v in vals):
             picks = [k for k, v in enumerate(vals) if v]
             sel_c = lambda r, picks=picks: _select(picks, r) if picks else 0  # noqa: E731
+            sel_c.rank = lambda m, picks=picks: _rank_concrete(picks, m)
             _rowmap_cache[key] = (_py_len(picks), sel_c, mask)
+            ROWMAP_LOG.append((mask, _py_len(picks), sel_c))
             return _py_len(picks), sel_c
     probe = me(tuple(SV(z3.Int("probe!%d" % k), "i") for k in _py_range(_py_len(sh))))
     if probe is True and _py_len(sh) == 1:
         # every element is the constant True: all rows selected, in order
         sel_id = lambda r: SV.lift(r)  # noqa: E731
+        sel_id.rank = lambda m: SV.lift(m)
         _rowmap_cache[key] = (n, sel_id, mask)
+        ROWMAP_LOG.append((mask, n, sel_id))
         return n, sel_id
     # the selection is a function of the mask's contents: COUNT(contents, n), SEL(contents, n, r)
     jm = z3.Int("j!mask")
-    body = core.bterm(_to_bool(me(_unflatten((SV(jm, "i"),), sh) if _py_len(sh) > 1 else (SV(jm, "i"),))))
-    lam = z3.Lambda([jm], body)
+    body = z3.simplify(core.bterm(_to_bool(me(_unflatten((SV(jm, "i"),), sh) if _py_len(sh) > 1 else (SV(jm, "i"),)))))
+    lam = z3.Lambda([jm], body)  # canonical (simplified) form: the same contents give the same term
     fs = _SELFN.get("f")
     if fs is None:
         fs = _SELFN["f"] = (z3.Function("np_count", lam.sort(), z3.IntSort(), z3.IntSort()),
@@ -956,6 +1015,30 @@ def _rowmap(mask):
 
     f = fs[1]
     sel.fn = f
+
+    def rank(m):
+        """ghost inverse of sel: the row at which the True position m is selected.  numpy's boolean selection
+        keeps every True position exactly once, in order: mask[m] and 0 <= m < n  =>  0 <= rank < count and
+        sel(rank) == m"""
+        m = SV.lift(m)
+        rf = _SELFN.get("rank")
+        if rf is None:
+            rf = _SELFN["rank"] = z3.Function("np_rank", lam.sort(), z3.IntSort(), z3.IntSort(), z3.IntSort())
+        rt = rf(lam, nt, m.t)
+        p3 = cur()
+        k3 = ("rankax", core.tid(rt))
+        if k3 not in p3.counter:
+            mv = me(_unflatten((m,), sh) if _py_len(sh) > 1 else (m,))
+            hyp = z3.And(m.t >= 0, m.t < nt, core.bterm(_to_bool(mv)))
+            ax = z3.Implies(hyp, z3.And(rt >= 0, rt < count.t, fs[1](lam, nt, rt) == m.t))
+            p3.counter[k3] = ax
+            p3.add(ax)
+        out = SV(rt, "i")
+        rank.axiom = p3.counter[k3]  # the instance just used (for explicit lemma hypotheses)
+        return out
+
+    sel.rank = rank
+    ROWMAP_LOG.append((mask, count, sel))
     _rowmap_cache.clear() if _py_len(_rowmap_cache) > 64 else None
     _rowmap_cache[key] = (count, sel, mask)
     return count, sel
@@ -1158,7 +1241,14 @@ def arange(*args, dtype=None):
     n = stop - start
     cn = concrete(n)
     n = cn if _py_isinstance(cn, int) else n
-    return ndarray.from_elem(lambda idx: start + idx[0], (n,), dtype or "int64")
+    r = ndarray.from_elem(lambda idx: start + idx[0], (n,), dtype or "int64")
+    cs = concrete(start)
+    r.nonneg = _py_isinstance(cs, int) and cs >= 0  # ghost: no negative entries (index arrays need no wrap-around)
+    return r
+
+
+OPAQUE_LINSPACE = [False]  # contracts that do not need the samples' formula keep it hidden (opaque / reveal)
+_linspace_fn = z3.Function("np_linspace", z3.RealSort(), z3.RealSort(), z3.IntSort(), z3.IntSort(), z3.RealSort())
 
 
 def linspace(start, stop, num=50):
@@ -1166,13 +1256,30 @@ def linspace(start, stop, num=50):
     cn = concrete(num)
     num = cn if _py_isinstance(cn, int) else num
 
-    def el(idx):
-        i = idx[0]
+    def formula(i):
         if _py_isinstance(num, int) and num == 1:
             return start * 1.0 if not _py_isinstance(start, SV) else SV(start.real(), "r")
+        if not _py_isinstance(num, int):
+            return ite(SV.lift(num) == 1, SV.lift(start) * 1.0, start + i * ((stop - start) / ite(SV.lift(num) == 1, 1, num - 1)))
         return start + i * ((stop - start) / (num - 1))
 
-    return ndarray.from_elem(el, (num,), "float64")
+    if OPAQUE_LINSPACE[0] and (_py_isinstance(start, SV) or _py_isinstance(stop, SV) or _py_isinstance(num, SV)):
+        st, sp, nm = SV.lift(start).real(), SV.lift(stop).real(), core.term(SV.lift(num))
+        cur().counter.setdefault("@linspace", []).append((st, sp, nm, formula))
+
+        def el(idx):
+            return SV(_linspace_fn(st, sp, nm, core.term(SV.lift(idx[0]))), "r")
+
+        return ndarray.from_elem(el, (num,), "float64")
+    return ndarray.from_elem(lambda idx: formula(idx[0]), (num,), "float64")
+
+
+def reveal_linspace(i):
+    """instantiate the definition of every opaque linspace of this path at index i"""
+    p = cur()
+    i = SV.lift(i)
+    for st, sp, nm, formula in p.counter.get("@linspace", []):
+        p.add(_linspace_fn(st, sp, nm, core.term(i)) == SV.lift(formula(i)).real())
 
 
 _pow10_fn = z3.Function("pow10", z3.RealSort(), z3.RealSort())
@@ -1187,11 +1294,12 @@ def logspace(start, stop, num=50):
 def meshgrid(*xs, indexing="xy"):
     if indexing != "ij":
         raise Undecided("meshgrid indexing='xy'")
+    xs = [asarray(x) for x in xs]
     shape = tuple(x.shape[0] for x in xs)
     outs = []
     for k, x in enumerate(xs):
-        e = asarray(x).snapshot()
-        outs.append(ndarray.from_elem(lambda idx, e=e, k=k: e((idx[k],)), shape, asarray(x).dtype))
+        e = x.snapshot()
+        outs.append(ndarray.from_elem(lambda idx, e=e, k=k: e((idx[k],)), shape, x.dtype))
     return outs
 
 
@@ -1465,6 +1573,10 @@ def _sqrtf(a):
     a = _num(a)
     if _py_isinstance(a, SV):
         return core.sqrt(a)
+    if _py_isinstance(a, int) and not _py_isinstance(a, bool) and a >= 0 and _math.isqrt(a) ** 2 != a:
+        # the root of an integer that is not a perfect square (np.sqrt(ndim)): the mathematical value, not its
+        # double rounding (machine arithmetic is treated as mathematical throughout)
+        return core.sqrt(a)
     return _math.sqrt(a) if a >= 0 else NAN
 
 
@@ -1678,7 +1790,10 @@ def _reduction(name, a, axis, result_dt=None):
 
     def el(idx):
         full = tuple(idx[:axis]) + (SV(j, "i"),) + tuple(idx[axis:])
-        body = core.term(SV.lift(_num(_plain(e(full)))))
+        probe = e(full)
+        if probe is NAN or _py_isinstance(probe, MaybeNaN):
+            return _nan_reduce(name, lambda jj: MaybeNaN.of(e(tuple(idx[:axis]) + (jj,) + tuple(idx[axis:]))), sh[axis])
+        body = core.term(SV.lift(_num(_plain(probe))))
         if body.sort() == z3.IntSort():
             body = z3.ToReal(body)
         lam = z3.Lambda([j], body)
@@ -1688,6 +1803,67 @@ def _reduction(name, a, axis, result_dt=None):
         return SV(ff(lam, core.term(SV.lift(sh[axis]))), "r")
 
     return ndarray.from_elem(el, out_shape, rdt)
+
+
+_NANRED = {}
+NAN_PROPAGATING = ("sum", "mean", "amin", "amax", "prod", "median", "std")
+NAN_SKIPPING = ("nansum", "nanmean", "nanmin", "nanmax")
+
+
+def _nan_reduce(name, col, n):
+    """reduction of a column whose elements may be NaN (col(j) -> MaybeNaN).  numpy: sum/mean/min/max give NaN as
+    soon as one element is NaN; nansum treats NaN as 0; nanmean/nanmin/nanmax skip NaN and give NaN for an all-NaN
+    column.  Concrete short columns are folded; otherwise the value is an uninterpreted function of the column's
+    contents (value lambda, NaN-flag lambda, length)."""
+    if name not in NAN_PROPAGATING + NAN_SKIPPING:
+        raise Undecided("reduction '%s' over NaN-tagged elements" % name)
+    cn = concrete(n)
+    if _py_isinstance(cn, int) and 0 < cn <= 16:
+        items = [col(k) for k in _py_range(cn)]
+        flags = [SV.lift(it.isnan) for it in items]
+        vals = [SV.lift(_num(it.val)) for it in items]
+        anyn, alln = flags[0], flags[0]
+        for f in flags[1:]:
+            anyn, alln = anyn | f, alln & f
+        if name in ("sum", "mean"):
+            t = vals[0]
+            for v in vals[1:]:
+                t = t + v
+            return MaybeNaN(anyn, t if name == "sum" else t / cn)
+        if name in ("amin", "amax"):
+            t = vals[0]
+            for v in vals[1:]:
+                t = ite((v < t) if name == "amin" else (v > t), v, t)
+            return MaybeNaN(anyn, t)
+        if name in ("nansum", "nanmean"):
+            t, c = SV.lift(0.0), SV.lift(0)
+            for f, v in zip(flags, vals):
+                t = t + ite(f, 0.0, v)
+                c = c + ite(f, 0, 1)
+            if name == "nansum":
+                return MaybeNaN(SV.lift(False), t)
+            return MaybeNaN(alln, t / ite(c == 0, 1, c))
+        if name in ("nanmin", "nanmax"):
+            have, t = SV.lift(False), SV.lift(0.0)
+            for f, v in zip(flags, vals):
+                better = (~f) & ((~have) | ((v < t) if name == "nanmin" else (v > t)))
+                t = ite(better, v, t)
+                have = have | ~f
+            return MaybeNaN(alln, t)
+        raise Undecided("reduction '%s' over NaN-tagged elements" % name)
+    j = z3.Int("j!red")
+    it = col(SV(j, "i"))
+    vb = core.term(SV.lift(_num(it.val)))
+    if vb.sort() == z3.IntSort():
+        vb = z3.ToReal(vb)
+    vlam, nlam = z3.Lambda([j], vb), z3.Lambda([j], core.bterm(SV.lift(it.isnan)))
+    fs = _NANRED.get(name)
+    if fs is None:
+        fs = _NANRED[name] = (z3.Function("np_%s_val" % name, vlam.sort(), nlam.sort(), z3.IntSort(), z3.RealSort()),
+                              z3.Function("np_%s_isnan" % name, nlam.sort(), z3.IntSort(), z3.BoolSort()))
+    nt = core.term(SV.lift(n))
+    flag = SV.lift(False) if name == "nansum" else SV(fs[1](nlam, nt), "b")
+    return MaybeNaN(flag, SV(fs[0](vlam, nlam, nt), "r"))
 
 
 def _plain(v):
@@ -1762,6 +1938,21 @@ max = amax
 @array_function(_first)
 def nansum(a, axis=None):
     return _reduction("nansum", a, axis)
+
+
+@array_function(_first)
+def nanmean(a, axis=None):
+    return _reduction("nanmean", a, axis, _float_result(asarray(a).dtype))
+
+
+@array_function(_first)
+def nanmin(a, axis=None):
+    return _reduction("nanmin", a, axis)
+
+
+@array_function(_first)
+def nanmax(a, axis=None):
+    return _reduction("nanmax", a, axis)
 
 
 class _PerPath:
